@@ -332,13 +332,24 @@ def search(ctx, deep):
         bad_forms = {'int-0-1-2': np.array([[0, 1], [1, 2], [2, 0], [1, 1], [0, 2]]), 'int-ranks': np.column_stack((np.arange(1, 9), np.arange(1, 9)[::-1])),
                      'int-negative': np.array([[0, 1], [1, 0], [-1, 1], [0, 0]]), 'object-out-of-range': np.array([[0.2, 0.4], [0.5, 1.5], [0.7, 0.1]], dtype=object),
                      'float32-out-of-range': np.array([[0.2, 0.4], [0.5, 1.5], [0.7, 0.1]], dtype=np.float32)}
+        # one out-of-range value anywhere in a LONG array (lengths around and between multiples of 256 / 1024: first row,
+        # middle, last row, last-but-k): refused like in a short one
+        for n_ in (1025, 1100, 1500, 2049, 5003):
+            base_ = np.random.RandomState(n_).uniform(0.01, 0.99, size=(n_, 2))
+            for pos in (0, n_ // 2, n_ - 1, n_ - 1 - (n_ % 256) // 2):
+                for colj, val in ((0, 1.0000001), (1, -1e-9)):
+                    Xl = base_.copy()
+                    Xl[pos, colj] = val
+                    bad_forms[f'long-n{n_}-row{pos}-col{colj}'] = Xl
         for fname, Xf in bad_forms.items():
             checked += 1
             got = real_fit(fam, Xf)
             if got[0] != 'err ValueError':
                 found += 1
-                ctx.fail_input(f'{fam}.fit', {'data_form': fname, 'X': Xf.tolist()}, got[0],
-                               'a value outside [0,1] is refused with ValueError in every dtype', f'{fam}.fit:invalid-data-not-refused')
+                ctx.fail_input(f'{fam}.fit', {'data_form': fname, 'X': Xf.tolist() if len(Xf) < 50 else 'RandomState(n).uniform(0.01, 0.99, (n,2)) with one cell replaced (see data_form)'}, got[0],
+                               'a value outside [0,1] is refused with ValueError in every dtype, at every position of an array of any length', f'{fam}.fit:invalid-data-not-refused')
+                if fname.startswith('long-'):
+                    break
     # history with refusals: a refused fit must not influence a later fit on the same object
     refusing = [X for kind, X in arrays if kind in ('gauss', 'ties', 'anti', 'tau0', 'tiny') and len(X) >= 2][:10]
     for fam in B.FAMS:
